@@ -22,7 +22,7 @@ import (
 
 var c16Spec = &PropSpec{
 	ID: "C16",
-	Cfg: Config{Property: "C16", Assert: asserts("insert", "delete", "search", "all", "backward", "min", "max", "size", "range", "prefix", "topk", "bottomk"),
+	Cfg: Config{Property: "C16", CallUndefined: true, Assert: asserts("insert", "delete", "search", "all", "backward", "min", "max", "size", "range", "prefix", "topk", "bottomk"),
 		AuditOps: []string{"scan"}, AuditEvery: 16, ExcludeKF: true, Census: true},
 	Mix: withMix(baseMix, func(m *Mix) {
 		m.BulkInsert, m.BulkDelete, m.DeleteAll = 6, 6, 2
